@@ -336,8 +336,8 @@ func PropC15(c *vs.Case, f Factory, kind string) error {
 	if nontrivial {
 		c.NonTrivial()
 	}
-	if len(env.CacheViolations) > 0 {
-		return vs.Violf("C17/cache-mutated", "shared cache objects changed during a sync: %v", env.CacheViolations)
+	if v := env.SharedStateViolation(); v != nil {
+		return v
 	}
 	return nil
 }
